@@ -8,7 +8,8 @@ usage: confirm_seeded.py <batch> [<batch>...]      e.g. C16a C19a
 """
 import json, os, shutil, subprocess, sys, re
 
-BASE = '31aa1ea'   # the pristine snapshot commit the sub-agents worked from
+BASE = os.environ.get('SEED_BASE') or subprocess.check_output(['git', '-C', '/repo', 'rev-parse', '--short', 'HEAD'], text=True).strip()
+# the commit the sub-agents worked from (batch a: 31aa1ea, before the four fix: commits; batch b: 2c400d7)
 OUT = '/verif/seeded'
 
 
@@ -76,6 +77,7 @@ def confirm(batch, k):
         if env:
             meta['confirmed']['env'] = env
         meta['breaks_property'] = meta.get('property')
+        meta['base_commit'] = BASE
         json.dump(meta, open(os.path.join(d, 'meta.json'), 'w'), indent=1)
     return res
 
